@@ -441,6 +441,46 @@ pub fn c08range() -> bool {
     bad
 }
 
+
+/// C09/C10: identifiers and signed entries decoded from hostile bytes (an id of fewer than 64 bytes, inside a
+/// signed entry or as a range bound) must be refused by the decoder, or at least be usable without a panic.
+pub fn c09recid() -> bool {
+    use bytes::Bytes;
+    let mut bad = false;
+    for n in [0usize, 3, 31, 32, 40, 63] {
+        let raw = postcard::to_stdvec(&Bytes::from(vec![7u8; n])).unwrap();
+        match postcard::from_bytes::<RecordIdentifier>(&raw) {
+            Err(_) => {}
+            Ok(id) => {
+                let r = std::panic::catch_unwind(|| {
+                    let _ = id.namespace();
+                    let _ = id.author();
+                    let _ = id.key().len();
+                    let _ = id.as_byte_tuple();
+                });
+                if r.is_err() {
+                    eprintln!("c09recid: a {n}-byte identifier was accepted by the decoder and its accessors panic");
+                    bad = true;
+                }
+            }
+        }
+    }
+    // a well-formed identifier still round-trips
+    let good = RecordIdentifier::new(crate::NamespaceId::from(&[1u8; 32]), crate::AuthorId::from(&[2u8; 32]), b"key");
+    let back: Result<RecordIdentifier, _> = postcard::from_bytes(&postcard::to_stdvec(&good).unwrap());
+    if back.ok() != Some(good.clone()) {
+        eprintln!("c09recid: a well-formed identifier does not survive encode/decode");
+        bad = true;
+    }
+    let empty_key = RecordIdentifier::new(crate::NamespaceId::from(&[1u8; 32]), crate::AuthorId::from(&[2u8; 32]), b"");
+    let back: Result<RecordIdentifier, _> = postcard::from_bytes(&postcard::to_stdvec(&empty_key).unwrap());
+    if back.ok() != Some(empty_key) {
+        eprintln!("c09recid: the identifier with the empty key does not survive encode/decode");
+        bad = true;
+    }
+    bad
+}
+
 pub fn run(id: &str) -> Option<bool> {
     Some(match id {
         "d3" => d3(),
@@ -449,10 +489,12 @@ pub fn run(id: &str) -> Option<bool> {
         "c12pm" => c12pm(),
         "insglue" => insglue(),
         "c08range" => c08range(),
+        "c09recid" => c09recid(),
         "c01silence" => c01silence(),
         "fp" => fp(),
         "c14" => crate::actor::verif_incrate::witness_c14(),
         "c11live" => crate::engine::verif_live::witness_c11live(),
+        "c09frame" => crate::net::verif_codec::witness_c09frame(),
         "c18" => crate::store::fs::verif_incrate::witness_c18::run(),
         "c06" => crate::store::fs::verif_incrate::witness_c06::run(),
         "c15store" => crate::store::fs::verif_incrate::witness_c15::run(),
